@@ -11,6 +11,7 @@
 -/
 import PsutilModel.Proofs.C16Seq
 import PsutilModel.Proofs.C16Conc
+import PsutilModel.Proofs.C16Lock
 import PsutilModel.Model.C16Gen
 namespace Psutil.C16
 open Spec
@@ -166,6 +167,27 @@ theorem C16_no_spurious_error_front {s : St} (h : Reach ccfgFront s) (tid : Nat)
 theorem C16_no_spurious_error_proc {s : St} (h : Reach ccfgProc s) (tid : Nat) : (s.thr tid).pc ≠ .err :=
   C16_no_spurious_error _ ccfg_good.2.1 (Or.inr ccfg_good.2.2.1) h tid
 
+/-- **lock protocol.** Under every interleaving: while the lock is free the `_cache` attribute is
+    absent; at most one thread is inside a block; and the "already inside" branch of the
+    `hasattr(self, "_cache")` nesting test is never taken by a (non-nested) enter — no thread ever
+    mistakes another thread's cache for its own enclosing block. -/
+theorem C16_lock_protocol (c : CCfg) (hnd : 1 ≤ c.nDeact) {s : St} (h : Reach c s) :
+    (s.lock = none → s.attr = none) ∧
+    (∀ i j, (s.thr i).mode ≠ .out → (s.thr j).mode ≠ .out → i = j) ∧
+    (∀ i, (s.thr i).mode ≠ .inNoop) := by
+  have hI := reach_linv hnd h
+  refine ⟨hI.free, fun i j hi hj => ?_, hI.noNoop⟩
+  have h1 := hI.own i (by simp [ownerish, hi])
+  have h2 := hI.own j (by simp [ownerish, hj])
+  rw [h1] at h2
+  exact Option.some.inj h2
+
+theorem C16_lock_protocol_front {s : St} (h : Reach ccfgFront s) : s.lock = none → s.attr = none :=
+  (C16_lock_protocol _ ccfg_good.1.2.2.2.2 h).1
+
+theorem C16_lock_protocol_proc {s : St} (h : Reach ccfgProc s) : s.lock = none → s.attr = none :=
+  (C16_lock_protocol _ ccfg_good.2.2.2.2.2 h).1
+
 /-- the pre-#1948 wrapper (store not guarded): a plain call racing with a block exit lets an
     AttributeError escape -/
 def cfgNoGuard : CCfg := ⟨3, 3, true, false, true⟩
@@ -273,6 +295,12 @@ theorem C16_literal_counterexample : ¬ C16_value_valid_Literal cfgFixed ∧ ¬ 
     have h2 := literalOK_of h1
     revert h2
     decide
+
+/-- the hypotheses of the interval theorem are satisfiable by a HIT through another thread's cache
+    (repaired wrapper), and the interval form then really uses its second disjunct -/
+example : ((runD cfgFixed St.init hitActs).thr 1).pc = .ret 0 14 ⟨5, 10⟩ (.hit 2 15) ∧
+    intervalOK (runD cfgFixed St.init hitActs) 0 14 ⟨5, 10⟩ (.hit 2 15) = true ∧
+    literalOK (runD cfgFixed St.init hitActs) 0 14 ⟨5, 10⟩ = false := by decide
 
 /-- for a call that MISSES (computes), the literal form does hold, under every interleaving -/
 theorem C16_value_valid_literal_for_misses (c : CCfg) {s : St} (h : Reach c s) (tid f cs : Nat) (e : Entry)
